@@ -87,6 +87,64 @@ type predCtx struct {
 	obsVar   *types.Var            // loop variable over observers
 	evtParam *types.Var
 	fail     string
+	eff      *core.Effects
+	// frames: parameter/receiver bindings of the boolean helpers currently being inlined (innermost last)
+	frames []map[types.Object]ast.Expr
+}
+
+func (pc *predCtx) pure(f *core.Func) bool {
+	return pc.eff == nil || len(pc.eff.Stores(f)) == 0
+}
+
+// resolve follows identifiers bound by inlined helpers to the caller's expression. It returns the expression and
+// the number of frames that remain valid for interpreting it.
+func (pc *predCtx) resolve(e ast.Expr) (ast.Expr, int) {
+	level := len(pc.frames)
+	for level > 0 {
+		x := ast.Unparen(e)
+		if u, ok := x.(*ast.UnaryExpr); ok && u.Op == token.AND {
+			// &param: keep the address-of, resolve below it
+			inner, l2 := pc.resolveAt(u.X, level)
+			if l2 == level {
+				break
+			}
+			return inner, l2
+		}
+		id, ok := x.(*ast.Ident)
+		if !ok {
+			break
+		}
+		mapped, ok := pc.frames[level-1][pc.m.Info.ObjectOf(id)]
+		if !ok {
+			break
+		}
+		e = mapped
+		level--
+	}
+	return e, level
+}
+
+func (pc *predCtx) resolveAt(e ast.Expr, level int) (ast.Expr, int) {
+	saved := pc.frames
+	pc.frames = pc.frames[:level]
+	r, l := pc.resolve(e)
+	pc.frames = saved
+	return r, l
+}
+
+// in runs fn with only the first `level` frames visible.
+func (pc *predCtx) in(level int, fn func()) {
+	saved := pc.frames
+	pc.frames = pc.frames[:level]
+	fn()
+	pc.frames = saved
+}
+
+// isObs reports whether e denotes the loop variable over observers (possibly through helper receivers/parameters).
+func (pc *predCtx) isObs(e ast.Expr) bool {
+	r, _ := pc.resolve(e)
+	id, ok := ast.Unparen(r).(*ast.Ident)
+	return ok && pc.obsVar != nil && pc.m.Info.ObjectOf(id) == pc.obsVar
 }
 
 func (pc *predCtx) operand(e ast.Expr) (string, string) {
@@ -94,6 +152,11 @@ func (pc *predCtx) operand(e ast.Expr) (string, string) {
 	e = ast.Unparen(e)
 	if u, ok := e.(*ast.UnaryExpr); ok && u.Op == token.AND {
 		e = ast.Unparen(u.X)
+	}
+	if r, level := pc.resolve(e); level != len(pc.frames) {
+		var a, b string
+		pc.in(level, func() { a, b = pc.operand(r) })
+		return a, b
 	}
 	switch x := e.(type) {
 	case *ast.Ident:
@@ -105,7 +168,7 @@ func (pc *predCtx) operand(e ast.Expr) (string, string) {
 	case *ast.SelectorExpr:
 		if fld := m.FieldOf(x); fld != nil {
 			key := m.FieldKey(fld)
-			if id, ok := ast.Unparen(x.X).(*ast.Ident); ok && pc.obsVar != nil && m.Info.ObjectOf(id) == pc.obsVar {
+			if pc.isObs(x.X) {
 				switch key {
 				case "observerData.compsMask":
 					return "o.comps", ""
@@ -134,6 +197,11 @@ func (pc *predCtx) operand(e ast.Expr) (string, string) {
 }
 
 func (pc *predCtx) eventIndex(e ast.Expr) string {
+	if r, level := pc.resolve(e); level != len(pc.frames) {
+		out := ""
+		pc.in(level, func() { out = pc.eventIndex(r) })
+		return out
+	}
 	if c := eventConstName(pc.m, e); c != "" {
 		return c
 	}
@@ -147,6 +215,17 @@ func (pc *predCtx) eventIndex(e ast.Expr) string {
 func (pc *predCtx) toDNF(e ast.Expr, neg bool) dnf {
 	m := pc.m
 	e = ast.Unparen(e)
+	if r, level := pc.resolve(e); level != len(pc.frames) {
+		var out dnf
+		pc.in(level, func() { out = pc.toDNF(r, neg) })
+		return out
+	}
+	if tv, ok := m.Info.Types[e]; ok && tv.Value != nil && tv.Value.Kind() == constant.Bool {
+		if constant.BoolVal(tv.Value) != neg {
+			return dnf{{}} // true
+		}
+		return dnf{} // false
+	}
 	switch x := e.(type) {
 	case *ast.UnaryExpr:
 		if x.Op == token.NOT {
@@ -176,13 +255,31 @@ func (pc *predCtx) toDNF(e ast.Expr, neg bool) dnf {
 				}
 			}
 		}
+		// a pure boolean helper: inline its body (if-chains of returns and a final return)
+		if k, cal, _ := m.Callee(x); k == core.CallStatic && cal.Body != nil && returnsBool(cal) && len(pc.frames) < 4 && pc.pure(cal) {
+			frame := map[types.Object]ast.Expr{}
+			if cal.Sig.Recv() != nil {
+				if sel, ok := ast.Unparen(x.Fun).(*ast.SelectorExpr); ok {
+					frame[cal.Sig.Recv()] = sel.X
+				}
+			}
+			for i := 0; i < cal.Sig.Params().Len() && i < len(x.Args); i++ {
+				frame[cal.Sig.Params().At(i)] = x.Args[i]
+			}
+			pc.frames = append(pc.frames, frame)
+			out, ok := pc.bodyDNF(cal.Body.List, neg)
+			pc.frames = pc.frames[:len(pc.frames)-1]
+			if ok {
+				return out
+			}
+		}
 	case *ast.Ident:
 		if v, ok := m.Info.ObjectOf(x).(*types.Var); ok && isBool(v.Type()) {
 			return dnf{{lit{Neg: neg, Op: "flag", A: x.Name}}}
 		}
 	case *ast.SelectorExpr:
 		if fld := m.FieldOf(x); fld != nil {
-			if id, ok := ast.Unparen(x.X).(*ast.Ident); ok && pc.obsVar != nil && m.Info.ObjectOf(id) == pc.obsVar {
+			if pc.isObs(x.X) {
 				switch m.FieldKey(fld) {
 				case "observerData.hasComps":
 					return dnf{{lit{Neg: neg, Op: "flag", A: "o.hasComps"}}}
@@ -210,6 +307,47 @@ func (pc *predCtx) toDNF(e ast.Expr, neg bool) dnf {
 	return dnf{{lit{Op: "flag", A: "?"}}}
 }
 
+// bodyDNF converts the body of a pure boolean helper (a chain of `if c { return e }` statements ending in
+// `return e`) into the DNF of its result (negated if neg).
+func (pc *predCtx) bodyDNF(list []ast.Stmt, neg bool) (dnf, bool) {
+	if len(list) == 0 {
+		return nil, false
+	}
+	switch x := list[0].(type) {
+	case *ast.ReturnStmt:
+		if len(x.Results) != 1 {
+			return nil, false
+		}
+		return pc.toDNF(x.Results[0], neg), true
+	case *ast.IfStmt:
+		if x.Init != nil {
+			return nil, false
+		}
+		thenD, ok := pc.bodyDNF(x.Body.List, neg)
+		if !ok {
+			return nil, false
+		}
+		var rest []ast.Stmt
+		if x.Else != nil {
+			switch el := x.Else.(type) {
+			case *ast.BlockStmt:
+				rest = el.List
+			default:
+				rest = []ast.Stmt{el}
+			}
+		} else {
+			rest = list[1:]
+		}
+		elseD, ok := pc.bodyDNF(rest, neg)
+		if !ok {
+			return nil, false
+		}
+		// result = (c && then) || (!c && else)
+		return append(dnfAnd(pc.toDNF(x.Cond, false), thenD), dnfAnd(pc.toDNF(x.Cond, true), elseD)...), true
+	}
+	return nil, false
+}
+
 func isBool(t types.Type) bool {
 	b, ok := t.Underlying().(*types.Basic)
 	return ok && b.Kind() == types.Bool
@@ -229,7 +367,7 @@ type firePred struct {
 func extractFire(c *core.Ctx, a *Anchors, f *core.Func) *firePred {
 	m := c.M
 	fp := &firePred{f: f, events: map[string]bool{}}
-	pc := &predCtx{m: m, f: f, maskPars: map[*types.Var]string{}}
+	pc := &predCtx{m: m, f: f, maskPars: map[*types.Var]string{}, eff: c.Eff}
 	for i := 0; i < f.Sig.Params().Len(); i++ {
 		p := f.Sig.Params().At(i)
 		if isMaskPtr(p.Type()) {
@@ -240,63 +378,51 @@ func extractFire(c *core.Ctx, a *Anchors, f *core.Func) *firePred {
 			pc.evtParam = p
 		}
 	}
-	// locate the loop over observers
+	// locate the loop over observers (anywhere in the body): it ranges over m.observers[E] or a local defined from it
 	var loop *ast.RangeStmt
-	for _, st := range f.Body.List {
-		if rs, ok := st.(*ast.RangeStmt); ok {
-			loop = rs
+	loops := 0
+	core.InspectNoLits(f.Body, func(n ast.Node) bool {
+		rs, ok := n.(*ast.RangeStmt)
+		if !ok {
+			return true
 		}
-	}
-	if loop == nil {
-		fp.fail = "no range loop over observers at top level"
-		return fp
-	}
-	// the ranged expression: m.observers[E] or a local defined from it
-	rangeX := ast.Unparen(loop.X)
-	if id, ok := rangeX.(*ast.Ident); ok {
-		if v, ok := m.Info.ObjectOf(id).(*types.Var); ok {
-			ds := localDefsOf(m, f, v)
-			if len(ds) == 1 {
-				rangeX = ast.Unparen(ds[0])
+		rangeX := ast.Unparen(rs.X)
+		if id, ok := rangeX.(*ast.Ident); ok {
+			if v, ok := m.Info.ObjectOf(id).(*types.Var); ok {
+				ds := localDefsOf(m, f, v)
+				if len(ds) == 1 {
+					rangeX = ast.Unparen(ds[0])
+				}
 			}
 		}
-	}
-	if ix, ok := rangeX.(*ast.IndexExpr); ok {
-		if sel, ok := ast.Unparen(ix.X).(*ast.SelectorExpr); ok {
-			if fld := m.FieldOf(sel); fld != nil && m.FieldKey(fld) == "observerManager.observers" {
-				fp.evt = pc.eventIndex(ix.Index)
+		if ix, ok := rangeX.(*ast.IndexExpr); ok {
+			if sel, ok := ast.Unparen(ix.X).(*ast.SelectorExpr); ok {
+				if fld := m.FieldOf(sel); fld != nil && m.FieldKey(fld) == "observerManager.observers" {
+					loop = rs
+					loops++
+					fp.evt = pc.eventIndex(ix.Index)
+				}
 			}
 		}
-	}
-	if fp.evt == "" {
-		fp.fail = "loop does not range over observerManager.observers[...]"
+		return true
+	})
+	if loop == nil || loops != 1 {
+		fp.fail = fmt.Sprintf("%d range loops over observerManager.observers[...] (want exactly one)", loops)
 		return fp
 	}
 	if id, ok := loop.Value.(*ast.Ident); ok {
 		pc.obsVar, _ = m.Info.ObjectOf(id).(*types.Var)
 	}
-	// early-outs: top-level ifs before the loop (possibly nested under `if earlyOut`)
-	var collect func(list []ast.Stmt, guard dnf)
-	collect = func(list []ast.Stmt, guard dnf) {
-		for _, st := range list {
-			if st.Pos() >= loop.Pos() {
-				break
-			}
-			is, ok := st.(*ast.IfStmt)
-			if !ok || is.Else != nil || is.Init != nil {
-				continue
-			}
-			cond := pc.toDNF(is.Cond, false)
-			if len(is.Body.List) == 1 {
-				if _, isRet := is.Body.List[0].(*ast.ReturnStmt); isRet {
-					fp.earlyOut = append(fp.earlyOut, dnfAnd(guard, cond)...)
-					continue
-				}
-			}
-			collect(is.Body.List, dnfAnd(guard, cond))
-		}
+	// Early-outs: the conditions under which the loop is not reached. Computed from the paths to the loop statement,
+	// so `if c { return }` chains, nesting under `if earlyOut`, merged or split conditions and a loop wrapped in a
+	// positive `if` all give the same result.
+	isReturn := func(st ast.Stmt) bool { _, ok := st.(*ast.ReturnStmt); return ok }
+	found, positives, exits, why := reachConds(f.Body.List, loop, isReturn)
+	if !found {
+		fp.fail = "cannot determine the paths to the dispatch loop: " + why
+		return fp
 	}
-	collect(f.Body.List, dnf{{}})
+	fp.earlyOut = pc.negReach(positives, exits)
 	// strip the earlyOut flag literal (a caller-side optimisation switch)
 	for i, conj := range fp.earlyOut {
 		var out []lit
@@ -308,44 +434,292 @@ func extractFire(c *core.Ctx, a *Anchors, f *core.Func) *firePred {
 		}
 		fp.earlyOut[i] = out
 	}
-	// per-observer skips
-	sawCallback := false
-	for _, st := range loop.Body.List {
-		switch x := st.(type) {
-		case *ast.IfStmt:
-			if sawCallback {
-				fp.fail = "condition after the callback"
-			}
-			if len(x.Body.List) == 1 {
-				if br, ok := x.Body.List[0].(*ast.BranchStmt); ok && br.Tok == token.CONTINUE && x.Else == nil {
-					fp.skips = append(fp.skips, pc.toDNF(x.Cond, false)...)
-					continue
-				}
-			}
-			fp.fail = "loop body contains an if that is not a skip (`continue`) condition"
-		case *ast.ExprStmt:
-			if call, ok := x.X.(*ast.CallExpr); ok {
+	// Per-observer skips: the conditions under which the callback is not reached inside one iteration.
+	var cbStmt ast.Stmt
+	cbs := 0
+	ast.Inspect(loop.Body, func(n ast.Node) bool {
+		if es, ok := n.(*ast.ExprStmt); ok {
+			if call, ok := es.X.(*ast.CallExpr); ok {
 				if sel, ok := ast.Unparen(call.Fun).(*ast.SelectorExpr); ok {
 					if fld := m.FieldOf(sel); fld != nil && m.FieldKey(fld) == "observerData.callback" {
-						sawCallback = true
-						continue
+						cbStmt = es
+						cbs++
 					}
 				}
 			}
-			fp.fail = "unexpected call in the dispatch loop"
-		case *ast.AssignStmt:
-			// found = true
-		default:
-			fp.fail = fmt.Sprintf("unexpected statement in the dispatch loop (%T)", st)
 		}
+		return true
+	})
+	if cbs != 1 {
+		fp.fail = fmt.Sprintf("dispatch loop invokes the callback at %d places (want exactly one)", cbs)
+		return fp
 	}
-	if !sawCallback {
-		fp.fail = "dispatch loop never invokes the callback"
+	isSkip := func(st ast.Stmt) bool {
+		br, ok := st.(*ast.BranchStmt)
+		return ok && br.Tok == token.CONTINUE
 	}
+	found, positives, exits, why = reachConds(loop.Body.List, cbStmt, isSkip)
+	if !found {
+		fp.fail = "cannot determine the paths to the callback: " + why
+		return fp
+	}
+	fp.skips = pc.negReach(positives, exits)
 	if pc.fail != "" && fp.fail == "" {
 		fp.fail = pc.fail
 	}
 	return fp
+}
+
+// condTerm is a condition that must have the given truth value.
+type condTerm struct {
+	e    ast.Expr
+	want bool
+}
+
+// reachConds determines how the statement target inside list is reached: positives are the conditions of the
+// enclosing ifs (with the branch taken), exits the path conditions under which an exit statement (as classified by
+// isExit) is executed before the target. Statements without control flow are ignored.
+func reachConds(list []ast.Stmt, target ast.Node, isExit func(ast.Stmt) bool) (found bool, positives []condTerm, exits [][]condTerm, why string) {
+	contains := func(n ast.Node) bool {
+		if n == nil {
+			return false
+		}
+		f := false
+		ast.Inspect(n, func(x ast.Node) bool {
+			if x == target {
+				f = true
+			}
+			return !f
+		})
+		return f
+	}
+	terminates := func(l []ast.Stmt) bool { return len(l) > 0 && isExit(l[len(l)-1]) }
+	var collect func(st ast.Stmt, cur []condTerm)
+	collectList := func(l []ast.Stmt, cur []condTerm) {
+		if terminates(l) {
+			exits = append(exits, append([]condTerm{}, cur...))
+			return
+		}
+		for _, s := range l {
+			collect(s, cur)
+		}
+	}
+	collect = func(st ast.Stmt, cur []condTerm) {
+		switch x := st.(type) {
+		case *ast.IfStmt:
+			if x.Init != nil {
+				why = "if statement with an init clause before the target"
+			}
+			collectList(x.Body.List, append(append([]condTerm{}, cur...), condTerm{x.Cond, true}))
+			if x.Else != nil {
+				ec := append(append([]condTerm{}, cur...), condTerm{x.Cond, false})
+				switch el := x.Else.(type) {
+				case *ast.BlockStmt:
+					collectList(el.List, ec)
+				default:
+					collect(el, ec)
+				}
+			}
+		case *ast.BlockStmt:
+			collectList(x.List, cur)
+		case *ast.ForStmt, *ast.RangeStmt, *ast.SwitchStmt, *ast.TypeSwitchStmt, *ast.SelectStmt:
+			exitInside := false
+			ast.Inspect(x, func(n ast.Node) bool {
+				if s, ok := n.(ast.Stmt); ok && isExit(s) {
+					if _, isRet := s.(*ast.ReturnStmt); isRet {
+						exitInside = true
+					}
+				}
+				return true
+			})
+			if exitInside {
+				why = "an exit inside a loop or switch before the target"
+			}
+		default:
+			if isExit(st) && len(cur) == 0 {
+				why = "unconditional exit before the target"
+			}
+		}
+	}
+	var walk func(l []ast.Stmt, pos []condTerm) bool
+	walk = func(l []ast.Stmt, pos []condTerm) bool {
+		for _, st := range l {
+			if !contains(st) {
+				collect(st, nil)
+				continue
+			}
+			switch x := st.(type) {
+			case *ast.IfStmt:
+				if contains(x.Body) {
+					return walk(x.Body.List, append(pos, condTerm{x.Cond, true}))
+				}
+				if x.Else != nil && contains(x.Else) {
+					np := append(pos, condTerm{x.Cond, false})
+					switch el := x.Else.(type) {
+					case *ast.BlockStmt:
+						return walk(el.List, np)
+					default:
+						return walk([]ast.Stmt{el}, np)
+					}
+				}
+				why = "target inside the condition or init of an if statement"
+				return false
+			case *ast.BlockStmt:
+				return walk(x.List, pos)
+			case *ast.ForStmt:
+				if ast.Node(st) != target && contains(x.Body) {
+					return walk(x.Body.List, pos)
+				}
+				if ast.Node(st) == target {
+					positives = pos
+					return true
+				}
+				why = "target in the header of a loop"
+				return false
+			case *ast.RangeStmt:
+				if ast.Node(st) != target && contains(x.Body) {
+					return walk(x.Body.List, pos)
+				}
+				if ast.Node(st) == target {
+					positives = pos
+					return true
+				}
+				why = "target in the header of a loop"
+				return false
+			default:
+				if ast.Node(st) == target {
+					positives = pos
+					return true
+				}
+				why = fmt.Sprintf("target nested in a %T", st)
+				return false
+			}
+		}
+		return false
+	}
+	found = walk(list, nil)
+	if why != "" {
+		found = false
+	}
+	return
+}
+
+// negReach returns the DNF of "the target is not reached": some enclosing condition has the other truth value, or
+// one of the exit paths is taken.
+func (pc *predCtx) negReach(positives []condTerm, exits [][]condTerm) dnf {
+	var out dnf
+	for _, p := range positives {
+		out = append(out, pc.toDNF(p.e, p.want)...) // negation of "e has value want"
+	}
+	for _, ex := range exits {
+		d := dnf{{}}
+		for _, t := range ex {
+			d = dnfAnd(d, pc.toDNF(t.e, !t.want))
+		}
+		out = append(out, d...)
+	}
+	return canonDNF(out)
+}
+
+// canonDNF returns the Blake canonical form of d (the set of all prime implicants), computed by iterated consensus
+// and absorption. Logically equivalent formulas over the same literals get the same canonical form, so the comparison
+// with the documented predicate does not depend on how the conditions are written (helpers with early returns,
+// merged or split conditions, De Morgan forms).
+func canonDNF(d dnf) dnf {
+	type term map[string]lit // atom key (positive form) -> literal
+	atomKey := func(l lit) string { l.Neg = false; return l.String() + "@" + l.Evt }
+	var terms []term
+	add := func(t term) bool {
+		// absorbed by an existing term?
+		for _, u := range terms {
+			sub := true
+			for k, lu := range u {
+				if lt, ok := t[k]; !ok || lt.Neg != lu.Neg {
+					sub = false
+					break
+				}
+			}
+			if sub {
+				return false
+			}
+		}
+		// remove terms absorbed by t
+		var kept []term
+		for _, u := range terms {
+			sub := true
+			for k, lt := range t {
+				if lu, ok := u[k]; !ok || lu.Neg != lt.Neg {
+					sub = false
+					break
+				}
+			}
+			if !sub {
+				kept = append(kept, u)
+			}
+		}
+		terms = append(kept, t)
+		return true
+	}
+	for _, conj := range d {
+		t := term{}
+		ok := true
+		for _, l := range conj {
+			k := atomKey(l)
+			if prev, dup := t[k]; dup && prev.Neg != l.Neg {
+				ok = false // contradictory conjunction
+				break
+			}
+			t[k] = l
+		}
+		if ok {
+			add(t)
+		}
+	}
+	for changed, rounds := true, 0; changed && rounds < 64; rounds++ {
+		changed = false
+		n := len(terms)
+		for i := 0; i < n && !changed; i++ {
+			for j := i + 1; j < n && !changed; j++ {
+				a, b := terms[i], terms[j]
+				opposed := ""
+				cnt := 0
+				for k, la := range a {
+					if lb, ok := b[k]; ok && lb.Neg != la.Neg {
+						opposed = k
+						cnt++
+					}
+				}
+				if cnt != 1 {
+					continue
+				}
+				cons := term{}
+				for k, l := range a {
+					if k != opposed {
+						cons[k] = l
+					}
+				}
+				for k, l := range b {
+					if k != opposed {
+						cons[k] = l
+					}
+				}
+				if add(cons) {
+					changed = true
+				}
+			}
+		}
+	}
+	var out dnf
+	for _, t := range terms {
+		var conj []lit
+		for _, l := range t {
+			conj = append(conj, l)
+		}
+		sort.Slice(conj, func(i, j int) bool { return conj[i].String() < conj[j].String() })
+		out = append(out, conj)
+	}
+	sort.Slice(out, func(i, j int) bool { return conjKey(out[i]) < conjKey(out[j]) })
+	return out
 }
 
 // familySpec: expected per-observer skip conjunctions per family.
@@ -813,30 +1187,39 @@ func c08r4(c *core.Ctx) {
 		return okAll && any
 	}
 	var flat []ast.Stmt
-	var flatten func(list []ast.Stmt)
-	flatten = func(list []ast.Stmt) {
+	var flatten func(list []ast.Stmt, depth int)
+	flatten = func(list []ast.Stmt, depth int) {
 		for _, st := range list {
 			if is, ok := st.(*ast.IfStmt); ok && is.Init == nil && isEventTest(is.Cond) {
-				flatten(is.Body.List)
+				flatten(is.Body.List, depth)
 				if eb, ok := is.Else.(*ast.BlockStmt); ok {
-					flatten(eb.List)
+					flatten(eb.List, depth)
 				}
 				continue
+			}
+			// a helper of the manager called as a statement: its statements take the place of the call
+			if es, ok := st.(*ast.ExprStmt); ok && depth < 3 {
+				if call, ok := es.X.(*ast.CallExpr); ok {
+					if k, cal, _ := m.Callee(call); k == core.CallStatic && cal.Recv == rem.Recv && cal != rem && cal.Body != nil && cal.Sig.Results().Len() == 0 {
+						flatten(cal.Body.List, depth+1)
+						continue
+					}
+				}
 			}
 			flat = append(flat, st)
 		}
 	}
-	flatten(rem.Body.List)
-	// position of the store that shortens observers[evt]
-	var shortened token.Pos
-	for _, st := range flat {
+	flatten(rem.Body.List, 0)
+	// the store that shortens observers[evt] (statements are considered in execution order, not by position)
+	shortIdx := -1
+	for i, st := range flat {
 		if as, ok := st.(*ast.AssignStmt); ok && len(as.Lhs) == 1 {
 			if ix, ok := ast.Unparen(as.Lhs[0]).(*ast.IndexExpr); ok && fieldOfSel(ix.X) == "observerManager.observers" {
-				shortened = as.Pos()
+				shortIdx = i
 			}
 		}
 	}
-	if shortened == token.NoPos {
+	if shortIdx < 0 {
 		c.Violation("C08/R4", rem.Name+": slice update", c.At(rem.Pos()), rem.Name+": the per-event observer slice is not re-assigned at top level")
 		return
 	}
@@ -847,8 +1230,8 @@ func c08r4(c *core.Ctx) {
 		subject := rem.Name + ": recompute " + pair[1]
 		// top-level statements after the shortening: anyNoX[evt] = false; for range m.observers[evt] {...}; allX[evt] = acc
 		var resetFlag, loopOK, assignAgg bool
-		for _, st := range flat {
-			if st.Pos() < shortened {
+		for i, st := range flat {
+			if i < shortIdx {
 				continue
 			}
 			switch x := st.(type) {
@@ -1075,6 +1458,7 @@ func c08r6(c *core.Ctx) {
 		s := sig{f: f, evts: map[string]string{}, rel: relParam(f) != nil}
 		rp := relParam(f)
 		inlineDepth := 0
+		var inlineF *core.Func
 		constBind := map[*types.Var]bool{}
 		// fire calls with their guards
 		var walk func(list []ast.Stmt, guard string)
@@ -1095,38 +1479,26 @@ func c08r6(c *core.Ctx) {
 							}
 						}
 					}
-					g := guard
-					cond := m.ExprString(x.Cond)
-					cat := "cond:" + cond
-					if rp != nil && (cond == "len("+rp.Name()+") > 0") {
-						cat = "relations-nonempty"
+					// only conditions on the operation's own inputs (is a slice parameter empty?) distinguish emission
+					// sites; observer-presence tests, lock flags and callback nil-tests are optimisations
+					curF := f
+					if inlineF != nil {
+						curF = inlineF
 					}
-					if strings.HasPrefix(cond, "has") || strings.Contains(cond, "Obs") {
-						// locals like hasCreateObs / hasRelObs: resolve their definition
-						if id, ok := ast.Unparen(x.Cond).(*ast.Ident); ok {
-							if v, ok := m.Info.ObjectOf(id).(*types.Var); ok {
-								for _, d := range localDefsOf(m, f, v) {
-									ds := m.ExprString(d)
-									cat = "has-observers"
-									if rp != nil && strings.Contains(ds, "len("+rp.Name()+") > 0") {
-										cat = "relations-nonempty"
-									}
-								}
-							}
-						}
-					}
-					if cat == "has-observers" || strings.HasPrefix(cat, "cond:fn != nil") || cat == "cond:shouldLock" {
-						cat = guard
-					}
-					if g != "" && cat != g && cat != "" {
-						g = g + "&" + cat
-					} else if cat != "" {
-						g = cat
-					}
-					walk(x.Body.List, g)
+					posCat := inputGuard(m, curF, x.Cond, true, rp)
+					negCat := inputGuard(m, curF, x.Cond, false, rp)
+					walk(x.Body.List, combineGuards(guard, posCat))
 					if x.Else != nil {
-						if eb, ok := x.Else.(*ast.BlockStmt); ok {
-							walk(eb.List, guard+"&else")
+						switch eb := x.Else.(type) {
+						case *ast.BlockStmt:
+							walk(eb.List, combineGuards(guard, negCat))
+						default:
+							walk([]ast.Stmt{eb}, combineGuards(guard, negCat))
+						}
+					} else if len(x.Body.List) > 0 {
+						// an early exit: what follows runs under the negated condition
+						if _, isRet := x.Body.List[len(x.Body.List)-1].(*ast.ReturnStmt); isRet {
+							guard = combineGuards(guard, negCat)
 						}
 					}
 				case *ast.ForStmt:
@@ -1163,7 +1535,10 @@ func c08r6(c *core.Ctx) {
 										}
 									}
 								}
+								saveF := inlineF
+								inlineF = cal
 								walk(cal.Body.List, guard)
+								inlineF = saveF
 								// batch loops in the helper
 								core.InspectNoLits(cal.Body, func(z ast.Node) bool {
 									if is, ok := z.(*ast.IfStmt); ok {
@@ -1259,24 +1634,143 @@ func c08r6(c *core.Ctx) {
 
 // guardOfNode computes the guard category of a node from its enclosing if statements.
 func guardOfNode(m *core.Model, f *core.Func, n ast.Node, rp *types.Var) string {
-	guard := "always"
-	core.InspectNoLits(f.Body, func(x ast.Node) bool {
-		is, ok := x.(*ast.IfStmt)
-		if !ok || is == n || !(is.Body.Pos() <= n.Pos() && n.End() <= is.Body.End()) {
-			return true
+	guard := ""
+	isReturn := func(st ast.Stmt) bool { _, ok := st.(*ast.ReturnStmt); return ok }
+	found, positives, exits, _ := reachConds(f.Body.List, n, isReturn)
+	if found {
+		for _, p := range positives {
+			guard = combineGuards(guard, inputGuard(m, f, p.e, p.want, rp))
 		}
-		if id, ok := ast.Unparen(is.Cond).(*ast.Ident); ok {
-			if v, ok := m.Info.ObjectOf(id).(*types.Var); ok {
-				for _, d := range localDefsOf(m, f, v) {
-					if rp != nil && strings.Contains(m.ExprString(d), "len("+rp.Name()+") > 0") {
-						guard = "relations-nonempty"
+		for _, ex := range exits {
+			if len(ex) == 1 {
+				guard = combineGuards(guard, inputGuard(m, f, ex[0].e, !ex[0].want, rp))
+			}
+		}
+	} else {
+		core.InspectNoLits(f.Body, func(x ast.Node) bool {
+			is, ok := x.(*ast.IfStmt)
+			if !ok || is == n || !(is.Body.Pos() <= n.Pos() && n.End() <= is.Body.End()) {
+				return true
+			}
+			guard = combineGuards(guard, inputGuard(m, f, is.Cond, true, rp))
+			return true
+		})
+	}
+	if guard == "" {
+		return "always"
+	}
+	return guard
+}
+
+// combineGuards joins two guard categories ("" = no constraint).
+func combineGuards(a, b string) string {
+	if b == "" || a == b {
+		return a
+	}
+	if a == "" {
+		return b
+	}
+	parts := map[string]bool{}
+	for _, p := range strings.Split(a+"&"+b, "&") {
+		parts[p] = true
+	}
+	var ks []string
+	for p := range parts {
+		ks = append(ks, p)
+	}
+	sort.Strings(ks)
+	return strings.Join(ks, "&")
+}
+
+// inputGuard extracts from a condition (required to have the given truth value) the constraints on the operation's own
+// inputs: emptiness tests of slice parameters of f. The relation-carrying parameter gives "relations-nonempty" /
+// "relations-empty"; other parameters "nonempty:#i" / "empty:#i". Boolean locals are resolved through their single
+// definition; everything else (observer presence, lock flags, nil tests of callbacks) contributes nothing.
+func inputGuard(m *core.Model, f *core.Func, cond ast.Expr, want bool, rp *types.Var) string {
+	out := ""
+	var visit func(e ast.Expr, want bool, depth int)
+	visit = func(e ast.Expr, want bool, depth int) {
+		e = ast.Unparen(e)
+		if depth > 4 {
+			return
+		}
+		switch x := e.(type) {
+		case *ast.UnaryExpr:
+			if x.Op == token.NOT {
+				visit(x.X, !want, depth)
+			}
+		case *ast.BinaryExpr:
+			switch x.Op {
+			case token.LAND:
+				if want {
+					visit(x.X, true, depth)
+					visit(x.Y, true, depth)
+				}
+			case token.LOR:
+				if !want {
+					visit(x.X, false, depth)
+					visit(x.Y, false, depth)
+				}
+			case token.GTR, token.NEQ, token.EQL, token.LEQ, token.LSS, token.GEQ:
+				call, ok := ast.Unparen(x.X).(*ast.CallExpr)
+				if !ok || !m.IsBuiltin(call, "len") || len(call.Args) != 1 {
+					return
+				}
+				tv, ok := m.Info.Types[x.Y]
+				if !ok || tv.Value == nil {
+					return
+				}
+				id, ok := ast.Unparen(call.Args[0]).(*ast.Ident)
+				if !ok {
+					return
+				}
+				v, ok := m.Info.ObjectOf(id).(*types.Var)
+				if !ok {
+					return
+				}
+				pi, isP := paramIndexOf(f, v)
+				if !isP {
+					return
+				}
+				nonEmpty := false
+				switch {
+				case (x.Op == token.GTR || x.Op == token.NEQ) && tv.Value.String() == "0":
+					nonEmpty = want
+				case (x.Op == token.EQL || x.Op == token.LEQ) && tv.Value.String() == "0":
+					nonEmpty = !want
+				case x.Op == token.GEQ && tv.Value.String() == "1":
+					nonEmpty = want
+				case x.Op == token.LSS && tv.Value.String() == "1":
+					nonEmpty = !want
+				default:
+					return
+				}
+				role := fmt.Sprintf("#%d", pi)
+				if rp != nil && v == rp {
+					role = "relations"
+				}
+				cat := "empty:" + role
+				if nonEmpty {
+					cat = "nonempty:" + role
+				}
+				if role == "relations" {
+					cat = "relations-empty"
+					if nonEmpty {
+						cat = "relations-nonempty"
 					}
+				}
+				out = combineGuards(out, cat)
+			}
+		case *ast.Ident:
+			if v, ok := m.Info.ObjectOf(x).(*types.Var); ok && !v.IsField() {
+				if ds := localDefsOf(m, f, v); len(ds) == 1 {
+					visit(ds[0], want, depth+1)
 				}
 			}
 		}
-		return true
-	})
-	return guard
+	}
+	visit(cond, want, 0)
+	return out
 }
 
 // c08r7: the relation change mask marks exactly the relations whose target changes.
